@@ -58,6 +58,7 @@ func checkC02(c *Ctx) {
 		callerArgsUntouched(c, p, "R10.7")
 		c03Routing(c, p, m)
 		c03Frames(c, p, m)
+		onlySelectedWritten(c, p, m, "R03.2")
 		c01Gates(c, p, m, tags)
 		c13Fanout(c, p, m)
 	}
